@@ -1,8 +1,6 @@
 package index
 
 import (
-	"log"
-
 	"github.com/sourcegraph/zoekt"
 )
 
@@ -113,10 +111,11 @@ func limitChunkMatches(file *zoekt.FileMatch, limit int) int {
 						break
 					}
 				}
-				if n > 0 {
-					// Should be impossible.
-					log.Panicf("Failed to find enough newlines when truncating Content, %d left over, %d ranges", n, len(cm.Ranges))
-				}
+				// If n > 0 here, Content holds fewer newlines than the line numbers of
+				// its Ranges imply. That only happens when the newline index of a
+				// corrupt shard disagrees with the content. This code runs in the
+				// request goroutine (and on the flush timer), outside the per-shard
+				// recover, so a panic would take down the process: leave Content uncut.
 			}
 
 			cm.Ranges = cm.Ranges[:limit]
